@@ -421,14 +421,14 @@ class TAP003(AbstractTAP, discriminator="tap-003"):
         to failure if the repeat_kill_chain_stages parameter is set to FALSE.
         """
         if self.current_kill_chain_stage == self.selected_kill_chain.EXPLOIT:
-            if self.current_kill_chain_stage == KillChainStageProgress.PENDING:
+            if self.current_stage_progress == KillChainStageProgress.PENDING:
                 # Perform the probability of success once upon entering the stage.
                 if not self._agent_trial_handler(self.config.agent_settings.kill_chain.EXPLOIT.probability):
                     if self.config.agent_settings.repeat_kill_chain_stages == False:
                         self.current_kill_chain_stage = self.selected_kill_chain.FAILED
                     self.chosen_action = "do-nothing", {}
                     return
-                self.current_kill_chain_stage = KillChainStageProgress.IN_PROGRESS
+                self.current_stage_progress = KillChainStageProgress.IN_PROGRESS
 
             self.config.agent_settings.kill_chain.EXPLOIT.malicious_acls = (
                 self.config.agent_settings.kill_chain.EXPLOIT.malicious_acls
